@@ -36,6 +36,22 @@ CHECKS = {
          "every class x version x modulation x NOPE base) is enumerated completely by TLC together with the prescribed verdict; each "
          "case is built as a real message and must be refused with ValueError and no datagram exactly when the spec says invalid.",
     note="trusted: TLC, fakesock.py; triples of simultaneous deviations are not enumerated"),
+ "C15": dict(
+    level="model_checking", design="4 (C15)",
+    technique="TLA+ spec DataDump model-checked with TLC over every file/cut/skip/count/index of the scaled layout; reads of real truncated files validated against the spec by TLC",
+    text="TLC checks, for every file of up to 3 (thorough: 4) messages, every truncation offset and every skip/count/index, that the "
+         "reader as the code is structured (header walk without body check, short-read detection) returns exactly the messages "
+         "completely written before the cut; real files written by DATADumpFile are cut at EVERY byte offset and every read of "
+         "the real parse_all/parse_msg is judged by the same operators on the recorded octets.",
+    note="trusted: TLC, matching of returned messages to stored ones by (class, fn, tn) in the driver; full field equality is judged by TLC on the uncut file only"),
+ "C17": dict(
+    level="model_checking", design="4 (C17)",
+    technique="TLA+ spec TrxdProto (v0/v1/v2 PDUs as dict<->octets operators) model-checked for the scaled layout; records of the real trxd_proto definitions judged by TLC",
+    text="TLC proves dec(enc(v)) = v for every v1 header/MTS combination and v2 PDUs with 0..2 batched parts (scaled layout); for the "
+         "real definitions every generated value set (all assigned modulation codes, NOPE, 0..8 batched parts) is encoded, re-decoded, "
+         "decoded with reserved bits set / wrong version / truncated, and every v0/v1 datagram of the message codec is fed to the "
+         "matching definition; TLC compares octets and values with the specification.",
+    note="trusted: TLC, proto_drv.py; unassigned modulation codes are not generated"),
 }
 
 NOT_YET = {}
